@@ -155,7 +155,9 @@ CLAIMED = {
              "table walk), never negative, never above the maximum; start/add-player requests are approved iff a "
              "full game price is available; _player_added deducts exactly one game price; audits change only the "
              "coin-count/earnings keys by exactly 1/value; clearing rules.",
-        note="Trusted: pyvc encoding, z3/cvc5, machine-variable and settings stores behave as maps, template "
+        note="Trusted: pyvc encoding, z3/cvc5, the machine-variable and settings stores are used through client views of "
+             "contracts proved under C15 / C16 and re-checked here (C20m, C20v); whole-store frame of set_machine_var "
+             "rests on C15's structural check (the store is subscripted with `name` only), template "
              "evaluation is a constant number, pricing table entries >= 0 for positions 1..wrap (establishment by "
              "_calculate_pricing_tiers not yet under contract), no re-entrancy between approval and player_added.",
         ref="4.C20"),
@@ -504,6 +506,14 @@ ADDED6 = {
 }
 
 
+ADDED7 = {
+    "C20": "Round 5: the machine-variable store is no longer only assumed to behave as a map: MachineVariables."
+           "set_machine_var / get_machine_var / configure_machine_var (mpf/core/machine_vars.py, C15's contracts: the "
+           "value is stored, get returns it or None, persist flag / expiry kept) are re-checked in this run as set C20m; "
+           "the model of the store used by the credits contracts is the client view of exactly those clauses.",
+}
+
+
 def main():
     props = [json.loads(l) for l in open("properties.jsonl")]
     checks = []
@@ -523,6 +533,8 @@ def main():
                 c["text"] = c["text"] + " " + ADDED5[pid]
             if pid in ADDED6:
                 c["text"] = c["text"] + " " + ADDED6[pid]
+            if pid in ADDED7:
+                c["text"] = c["text"] + " " + ADDED7[pid]
             checks.append({
                 "property_id": pid,
                 "quick_cmd": "./check %s --tier quick" % pid,
